@@ -22,7 +22,7 @@ def upIface : Iface :=
       else [.reply (errMethodNotFound r.method)] }
 
 def abortName := "org.example.abort"
-def abortDesc := "interface org.example.abort\nmethod Silent() -> ()\nmethod ReplyThenAbort(delay_ms: int, token: string) -> (aborting: string)\n"
+def abortDesc := "interface org.example.abort\nmethod Silent() -> ()\nmethod ReplyThenAbort(delay_ms: int, token: string) -> (aborting: string)\nmethod SlowReply(delay_ms: int, token: string) -> (slow: string)\nmethod SlowStream(delay_ms: int, token: string) -> (i: int, token: string)\n"
 
 def abortIface : Iface :=
   { name := abortName, desc := abortDesc,
@@ -33,6 +33,19 @@ def abortIface : Iface :=
           | some (.str s) => s
           | _ => ""
         [.reply (Reply.params (some (.obj [("aborting", .str tok)]))), .fail]
+      else if r.method == "org.example.abort.SlowReply" then
+        let tok := match r.parameters.bind (·.get? "token") with
+          | some (.str s) => s
+          | _ => ""
+        [.reply (Reply.params (some (.obj [("slow", .str tok)])))]
+      else if r.method == "org.example.abort.SlowStream" then
+        let tok := match r.parameters.bind (·.get? "token") with
+          | some (.str s) => s
+          | _ => ""
+        (if wantsMore r then
+          [.setContinues true, .reply (Reply.params (some (.obj [("i", .int 0), ("token", .str tok)]))), .setContinues false]
+         else []) ++
+        [.reply (Reply.params (some (.obj [("i", .int 1), ("token", .str tok)])))]
       else [.reply (errMethodNotFound r.method)] }
 
 /-- does the service close the connection right after replying (no delay)? -/
